@@ -215,6 +215,10 @@ type Hooks struct {
 	Instr  func(x *Exec, s *State, in ssa.Instruction)
 	// Builtin is told that a builtin (append, len, …) is about to be evaluated.
 	Builtin func(x *Exec, s *State, in *ssa.Call, name string, args []Value)
+	// (see Exec.FuncVars for calls through write-once package variables)
+	// Devirt, when set, names the single function an interface method call on a value of unknown dynamic type can reach
+	// (nil: leave the call unresolved).
+	Devirt func(fn *ssa.Function, site ssa.CallInstruction) *ssa.Function
 }
 
 type Exec struct {
@@ -241,22 +245,27 @@ type Exec struct {
 	Exhausted   bool
 	Problems    []string
 
-	domains  map[string][]string
-	locID    map[string]string
-	LocOf    map[string]string
-	seen     map[string]bool
-	live     map[*ssa.Function]map[*ssa.BasicBlock]map[ssa.Value]bool
-	terms    []Terminal
-	termKey  map[string]bool
-	work     []*State
-	tables   map[*ssa.Global]map[string]Value
-	arrays   map[*ssa.Global]map[int64]Value
-	globals  map[string]*ssa.Global
-	arrayLen map[string]int64 // arrays a whole-array slice was taken of (slice literals): location -> length
+	domains map[string][]string
+	locID   map[string]string
+	LocOf   map[string]string
+	// FuncVars: package variables that hold one function from their initialiser on; a load yields that function
+	FuncVars map[*ssa.Global]*ssa.Function
+	// FuncField: the one function ever stored into field i of the structure ptrT points to, or nil
+	FuncField func(ptrT types.Type, i int) *ssa.Function
+	seen      map[string]bool
+	live      map[*ssa.Function]map[*ssa.BasicBlock]map[ssa.Value]bool
+	terms     []Terminal
+	termKey   map[string]bool
+	work      []*State
+	tables    map[*ssa.Global]map[string]Value
+	arrays    map[*ssa.Global]map[int64]Value
+	globals   map[string]*ssa.Global
+	arrayLen  map[string]int64 // arrays a whole-array slice was taken of (slice literals): location -> length
+	stepLists map[string]bool  // those of them whose elements are functions (lists of steps to run in order)
 }
 
 func New(prog *ssa.Program, inScope func(*ssa.Function) bool) *Exec {
-	return &Exec{Prog: prog, InScope: inScope, MaxDepth: 5, MaxStates: 200000, MaxWall: 45 * time.Second, Unroll: 1,
+	return &Exec{Prog: prog, InScope: inScope, MaxDepth: 5, MaxStates: 200000, MaxWall: 240 * time.Second, Unroll: 1,
 		domains: map[string][]string{}, locID: map[string]string{}, LocOf: map[string]string{}, live: map[*ssa.Function]map[*ssa.BasicBlock]map[ssa.Value]bool{}}
 }
 
@@ -2222,6 +2231,17 @@ func (x *Exec) step(s *State, f *Frame, in ssa.Instruction) bool {
 		xv := x.val(s, f, in.X)
 		switch in.Op {
 		case token.MUL:
+			if g, ok := in.X.(*ssa.Global); ok && x.FuncVars[g] != nil {
+				// a write-once package variable that holds a function (var openFile = os.Open)
+				f.Env[in] = x.val(s, f, x.FuncVars[g])
+				break
+			}
+			if fa, ok := in.X.(*ssa.FieldAddr); ok && x.FuncField != nil {
+				if fn := x.FuncField(fa.X.Type(), fa.Field); fn != nil {
+					f.Env[in] = x.val(s, f, fn) // a field only one function is ever stored into
+					break
+				}
+			}
 			x.derefCheck(s, in, xv)
 			f.Env[in] = x.load(s, xv, in.Type())
 			if x.Hooks.Load != nil {
@@ -2252,7 +2272,12 @@ func (x *Exec) step(s *State, f *Frame, in ssa.Instruction) bool {
 			f.Env[in] = NewTerm("un"+in.Op.String(), xv)
 		}
 	case *ssa.BinOp:
-		f.Env[in] = x.binop(in, x.val(s, f, in.X), x.val(s, f, in.Y))
+		a, b := x.val(s, f, in.X), x.val(s, f, in.Y)
+		if v, ok := x.decidedNilTest(s, in.Op, a, b); ok {
+			f.Env[in] = v
+			break
+		}
+		f.Env[in] = x.binop(in, a, b)
 	case *ssa.FieldAddr:
 		base := x.val(s, f, in.X)
 		x.derefCheck(s, in, base)
@@ -2378,17 +2403,36 @@ func (x *Exec) step(s *State, f *Frame, in ssa.Instruction) bool {
 		f.Env[in] = NewTerm("makechan", x.val(s, f, in.Size))
 	case *ssa.Slice:
 		base := x.val(s, f, in.X)
-		if p, ok := base.(Ptr); ok && in.Low == nil && in.High == nil {
+		whole := in.High == nil
+		if hc, ok := in.High.(*ssa.Const); ok && in.Max == nil {
+			// arr[:n] with n the length of the array (what make(T, n) with a constant n compiles to) is arr[:]
+			if pt, ok := in.X.Type().Underlying().(*types.Pointer); ok {
+				if at, ok := pt.Elem().Underlying().(*types.Array); ok && hc.Value != nil && hc.Value.Kind() == constant.Int && hc.Int64() == at.Len() {
+					whole = true
+				}
+			}
+		}
+		if p, ok := base.(Ptr); ok && in.Low == nil && whole {
 			if pt, ok := in.X.Type().Underlying().(*types.Pointer); ok {
 				if at, ok := pt.Elem().Underlying().(*types.Array); ok {
 					if x.arrayLen == nil {
 						x.arrayLen = map[string]int64{}
 					}
 					x.arrayLen[p.Loc] = at.Len() // arr[:] of a literal: its cells are arr's cells
+					if _, isFn := at.Elem().Underlying().(*types.Signature); isFn {
+						if x.stepLists == nil {
+							x.stepLists = map[string]bool{}
+						}
+						x.stepLists[p.Loc] = true
+					}
 				}
 			}
 		}
-		f.Env[in] = NewTerm("slice", base, x.optVal(s, f, in.Low), x.optVal(s, f, in.High))
+		if whole && in.Low == nil {
+			f.Env[in] = NewTerm("slice", base, Const{}, Const{})
+		} else {
+			f.Env[in] = NewTerm("slice", base, x.optVal(s, f, in.Low), x.optVal(s, f, in.High))
+		}
 	case *ssa.TypeAssert:
 		xv := x.val(s, f, in.X)
 		var inner Value = NewTerm("assert:"+in.AssertedType.String(), xv)
@@ -2510,6 +2554,30 @@ func (x *Exec) derefCheck(s *State, in ssa.Instruction, p Value) {
 	x.Hooks.Deref(x, s, in, p)
 }
 
+// decidedNilTest: v == nil / v != nil as a value (stop = err != nil) when the path already knows which it is.
+func (x *Exec) decidedNilTest(s *State, op token.Token, a, b Value) (Value, bool) {
+	if op != token.EQL && op != token.NEQ {
+		return nil, false
+	}
+	if c, ok := a.(Const); ok && c.Nil {
+		a, b = b, a
+	}
+	c, ok := b.(Const)
+	if !ok || !c.Nil {
+		return nil, false
+	}
+	switch a.(type) {
+	case Sym, *Term:
+	default:
+		return nil, false
+	}
+	o := x.Possible(s, "nil("+a.Key()+")")
+	if len(o) != 1 {
+		return nil, false
+	}
+	return boolConst((o[0] == "nil") == (op == token.EQL)), true
+}
+
 func (x *Exec) binop(in *ssa.BinOp, a, b Value) Value {
 	ca, okA := a.(Const)
 	cb, okB := b.(Const)
@@ -2612,6 +2680,12 @@ func (x *Exec) call(s *State, f *Frame, in *ssa.Call) bool {
 	if c.IsInvoke() {
 		recv := x.val(s, f, c.Value)
 		callee, fnv, a2 := x.resolveInvoke(recv, c.Method, args)
+		if callee == nil && x.Hooks.Devirt != nil {
+			// an interface value of unknown dynamic type: the rule may know that only one implementation can be meant
+			if cal := x.Hooks.Devirt(f.Fn, in); cal != nil {
+				callee, a2 = cal, append([]Value{NewTerm("dyn", recv)}, args...)
+			}
+		}
 		if callee == nil {
 			fnv = NewTerm("method:"+c.Method.Name(), recv)
 			if x.Hooks.Call != nil {
@@ -2657,6 +2731,16 @@ func (x *Exec) builtin(s *State, f *Frame, in *ssa.Call, name string, args []Val
 		}
 		if t, ok := args[0].(*Term); ok && t.Op == "make" && len(t.Args) == 2 {
 			return t.Args[1]
+		}
+		// a whole-array slice handed to a callee (the list behind a variadic parameter)
+		// — only for lists of functions: a helper that runs its steps in order must be followed step by step (a generalised
+		// index would make the callee unknown), whereas a table of data rows handed to a helper is walked in general
+		if t, ok := args[0].(*Term); ok && t.Op == "slice" && len(t.Args) == 3 && t.Args[1].Key() == "zero" && t.Args[2].Key() == "zero" {
+			if p, ok := t.Args[0].(Ptr); ok && x.stepLists[p.Loc] {
+				if n, known := x.arrayLen[p.Loc]; known {
+					return Const{V: constant.MakeInt64(n)}
+				}
+			}
 		}
 		if isTop(args[0]) {
 			return Top{}
